@@ -162,14 +162,6 @@ prop("C18", "a failed assign_in_place leaves a valid value",
       "'unchanged' is required only when the refusal comes from the type's own size check; a nested emplacer that fails after partial construction (e.g. FromIterator running out of capacity) must leave a valid value, not the old one"],
      asg("assign_in_place Err => still valid, inspectable, re-assignable; unchanged if the variant does not fit"))
 
-prop("C14", "in-place mutation stays inside the value",
-     "Every constructing and mutating harness keeps the slice inside a larger symbolic array and asserts that all bytes outside the slice are unchanged (canaries), for successful and failing operations alike; CBMC's pointer checks flag writes past the enclosing object. Sibling-field preservation follows from the content equalities asserted after each step.",
-     ["buffers longer than the per-shape bound", "sequences are covered one operation at a time from an arbitrary valid state"],
-     em("emplace", "canaries outside [k, k+n) unchanged after new_in_place (Ok or Err)", quick=["V_U8", "V_U16", "V_U8L32", "U_S1", "U_E1", "X_U8", "V_A3", "U_E3"], thorough=["U_S4", "X_V", "X_U16", "V_SB"])
-     + asg("canaries outside the target unchanged after assign_in_place (Ok or Err)")
-     + vsteps("bytes after the vector's slice unchanged after every FlatVec operation (element more aligned than the length type included)", quick=("V_U16_st",))
-     + xsteps("bytes after the vector's slice unchanged after FlexVec push", ops=["push"]))
-
 # ---------------------------------------------------------------- portable scalars
 INTS = ["le_u16", "le_u32", "le_u64", "le_i16", "le_i32", "le_i64", "be_u16", "be_u32", "be_u64", "be_i16", "be_i32", "be_i64"]
 prop("C16", "portable scalars",
@@ -334,3 +326,13 @@ prop("C17", "portable composites have a padding-free, address-independent image"
         tier="quick" if m in ("S_PS_p", "S_PE_p", "V_P_p", "U_PS_p", "X_U8P_p") else "thorough") for m, sh in PORT.items()]
      + ro("accept", "from_bytes at any address for alignment-1 shapes == reference decoding", shapes_quick=["S_PS", "S_PE", "V_P", "U_PS", "U_PE", "X_U8P"], shapes_thorough=["STRP", "X_P"])
      + em("default", "default_in_place of a portable FlexVec does not depend on prior buffer contents", quick=["X_U8P"], thorough=[]))
+
+# ---------------------------------------------------------------- C14 (uses the constructing and the step families)
+prop("C14", "in-place mutation stays inside the value",
+     "Every constructing and mutating harness keeps the slice inside a larger symbolic array and asserts that all bytes outside the slice are unchanged (canaries), for successful and failing operations alike; CBMC's pointer checks flag writes past the enclosing object. Sibling-field preservation follows from the content equalities asserted after each step.",
+     ["buffers longer than the per-shape bound", "sequences are covered one operation at a time from an arbitrary valid state"],
+     em("emplace", "canaries outside [k, k+n) unchanged after new_in_place (Ok or Err)", quick=["V_U8", "V_U16", "V_U8L32", "U_S1", "U_E1", "X_U8", "V_A3", "U_E3"], thorough=["U_S4", "X_V", "X_U16", "V_SB"])
+     + asg("canaries outside the target unchanged after assign_in_place (Ok or Err)")
+     + vsteps("bytes after the vector's slice unchanged after every FlatVec operation (element more aligned than the length type included)", quick=("V_U16_st",))
+     + xsteps("bytes after the vector's slice unchanged after FlexVec push", ops=["push"]))
+
